@@ -960,16 +960,7 @@ package vm
 //@ ghost snapver (Array Int Int)
 //@ ghost snapnext Int
 
-// Native-token ledger (C06): bal[a] is the balance of address a as StateDB.GetBalance reports it, supply the sum
-// of all balances. SubBalance debits only when the balance covers the amount (and reports nothing to the
-// VM); AddBalance stores the absolute value of the sum (AccountDB keeps balances as unsigned big-endian
-// bytes). Both facts are the behaviour of account.AccountDB.SubFT/AddFT, trusted here.
-//@ ghost bal (Array {common.Address} Int)
-//@ ghost supply Int
-//@ ghost snapbal (Array Int (Array {common.Address} Int))
-//@ ghost snapsupply (Array Int Int)
-//@ spec macro fn balOf(a common.Address) Int = @select(ghost(bal), a)
-//@ spec fn absZ(x Int) Int = ite(x >= 0, x, 0 - x)
+// Native-token ledger (C06): ghosts bal / supply and balOf are declared with the account database (src/storage/account).
 
 //@ func StateDB.CreateAccount
 //@   option trusted interface
